@@ -20,6 +20,9 @@ import (
 //	g_ints_walk_once   WalkPassthrough has a comma-ok map test that returns (an endpoint being expanded is not re-entered)
 //	g_dm_path          DrawRelation: every Path[<literal>] sits in a function that tests len(...Path...)
 //	g_swagger_rest     populateEndpoint: tests len(...) of the split endpoint name before indexing [1]
+//	g_sw_param_schema  setCommonAttributes: an index into `<x>.Schema.ExtraProps` only with an `<x>.Schema == nil` test in the function
+//	g_oa3_ret_split    syslwrapper mapResponse: every strings.Split/SplitN separator literal is one of the literals the
+//	                   function tests with strings.Contains (or the function tests len(...) of the split result)
 //	g_db_path          findTableDepth (+ foreignKeyTarget): no unchecked Path[<literal>]
 //	g_db_writer_path   writeCreateSQLForAColumn / writeModifySQLForAColumn (+ foreignKeyTarget): same
 //	g_db_progress      processTableDepth: the self-recursion is preceded by a conditional return
@@ -281,6 +284,60 @@ func cmdGuards(repo string) (string, error) {
 		return "", err
 	}
 	gSwagger := !indexesCallResult(fdPop) || hasLenTest(fdPop, "path", "Split", "tokens", "endpointTokens")
+	_, fdCommon, err := need("pkg/exporter/endpoint_exporter.go", "EndpointExporter", "setCommonAttributes")
+	if err != nil {
+		return "", err
+	}
+	usesSchemaProps, testsSchemaNil := false, false
+	ast.Inspect(fdCommon.Body, func(nd ast.Node) bool {
+		switch x := nd.(type) {
+		case *ast.IndexExpr:
+			if ch := selChain(x.X); len(ch) >= 2 && ch[len(ch)-1] == "ExtraProps" && ch[len(ch)-2] == "Schema" {
+				usesSchemaProps = true
+			}
+		case *ast.BinaryExpr:
+			if x.Op == token.EQL && (isNilIdent(x.X) || isNilIdent(x.Y)) {
+				for _, side := range []ast.Expr{x.X, x.Y} {
+					if ch := selChain(side); len(ch) >= 1 && ch[len(ch)-1] == "Schema" {
+						testsSchemaNil = true
+					}
+				}
+			}
+		}
+		return true
+	})
+	gSwParam := !usesSchemaProps || testsSchemaNil
+	_, fdResp, err := need("pkg/syslwrapper/app.go", "AppMapper", "mapResponse")
+	if err != nil {
+		return "", err
+	}
+	tested := map[string]bool{}
+	var seps []string
+	ast.Inspect(fdResp.Body, func(nd ast.Node) bool {
+		if c, ok := nd.(*ast.CallExpr); ok {
+			ch := selChain(c.Fun)
+			if len(ch) == 2 && ch[0] == "strings" && len(c.Args) >= 2 {
+				if lit, ok := c.Args[1].(*ast.BasicLit); ok {
+					switch ch[1] {
+					case "Contains":
+						tested[lit.Value] = true
+					case "Split", "SplitN":
+						seps = append(seps, lit.Value)
+					}
+				}
+			}
+		}
+		return true
+	})
+	gOa3 := true
+	for _, sp := range seps {
+		if !tested[sp] {
+			gOa3 = false
+		}
+	}
+	if hasLenTest(fdResp, "returnStatement", "parts") {
+		gOa3 = true
+	}
 	// ---- database
 	gfDb, fdFtd, err := need("pkg/database/db_utils.go", "", "findTableDepth")
 	if err != nil {
@@ -407,8 +464,8 @@ func cmdGuards(repo string) (string, error) {
 	var b strings.Builder
 	b.WriteString("(* GENERATED by translate/cmdguards.go from the repository source - do not edit. *)\n")
 	b.WriteString("From Coq Require Import List String NArith.\nImport ListNotations.\nRequire Import Verif.Cmds.Model.\nLocal Open Scope string_scope.\n\n")
-	fmt.Fprintf(&b, "Definition current : guards := {|\n  g_ints_target := %s;\n  g_ints_walk_once := %s;\n  g_dm_path := %s;\n  g_swagger_rest := %s;\n  g_db_path := %s;\n  g_db_writer_path := %s;\n  g_db_progress := %s;\n  g_mseq_err := %s;\n  g_mint_app := %s;\n  g_render_recover := %s |}.\n\n",
-		coqBool(gIntsTarget), coqBool(gIntsWalk), coqBool(gDmPath), coqBool(gSwagger), coqBool(gDbPath), coqBool(gDbWriter), coqBool(gDbProgress), coqBool(gMseq), coqBool(gMint), coqBool(gRender))
+	fmt.Fprintf(&b, "Definition current : guards := {|\n  g_ints_target := %s;\n  g_ints_walk_once := %s;\n  g_dm_path := %s;\n  g_swagger_rest := %s;\n  g_sw_param_schema := %s;\n  g_oa3_ret_split := %s;\n  g_db_path := %s;\n  g_db_writer_path := %s;\n  g_db_progress := %s;\n  g_mseq_err := %s;\n  g_mint_app := %s;\n  g_render_recover := %s |}.\n\n",
+		coqBool(gIntsTarget), coqBool(gIntsWalk), coqBool(gDmPath), coqBool(gSwagger), coqBool(gSwParam), coqBool(gOa3), coqBool(gDbPath), coqBool(gDbWriter), coqBool(gDbProgress), coqBool(gMseq), coqBool(gMint), coqBool(gRender))
 	fmt.Fprintf(&b, "(* cmd/sysl main / main2 / main3 / cmdRunner.Run run the command under a deferred recover *)\nDefinition top_recover : bool := %s.\n\n", coqBool(topRecover))
 	b.WriteString("(* (package.function, kind, ordinal) of every panic( / os.Exit / *.Fatal* call in the packages the commands drive *)\n")
 	b.WriteString("Definition abort_sites : list (string * string * N) := [\n")
